@@ -19,6 +19,7 @@ import Std.Data.HashMap
 import Std.Data.HashSet
 import RigModel.Model.Proto
 import RigModel.Gen.Scp
+import RigModel.Model.C07
 
 namespace Rig.C06
 open Rig.Gen.Scp
@@ -167,6 +168,110 @@ def run (cfg : Cfg) (extra : Nat → Option Int) (clock : Nat → Int) : St → 
     else (st, [], .done)
 
 
+/-! ### What the operating system must provide for the burst to terminate
+
+The loop only makes progress when `select` returns: with a datagram, or because its timeout
+(the earliest deadline of an outstanding packet) has passed.  These predicates state that on the
+environment (clock + batches); `RigModel.Props.C06.terminates_under_progress` assumes them. -/
+
+/-- the state after the transmit loop of the iteration that starts in `st` (the outstanding table
+`select`'s timeout is computed from) -/
+def afterFill (cfg : Cfg) (extra : Nat → Option Int) (clock : Nat → Int) (st : St) : St :=
+  (fill cfg extra clock (cfg.window + 1) st).1
+
+/-- **(b)** `select` returned by timeout: the iteration's final clock reading (`current_time`) is
+strictly later than the earliest deadline of an outstanding packet, i.e. than the deadline of some
+outstanding packet.  (Nothing is demanded when nothing is outstanding: `select` is then called
+with timeout 0.) -/
+def timedOut (cfg : Cfg) (extra : Nat → Option Int) (clock : Nat → Int) (st : St) : Bool :=
+  let st1 := afterFill cfg extra clock st
+  st1.outs.isEmpty || st1.outs.any (fun p => decide (p.2.deadline < clock (st1.k + 1)))
+
+/-- **(b), as `select` really behaves:** the final reading is not earlier than the earliest deadline
+(`select` waited for its timeout) and strictly later than the reading the timeout was computed
+from (a timed-out `select` takes time). -/
+def timedOutWeak (cfg : Cfg) (extra : Nat → Option Int) (clock : Nat → Int) (st : St) : Bool :=
+  let st1 := afterFill cfg extra clock st
+  st1.outs.isEmpty ||
+    (st1.outs.any (fun p => decide (p.2.deadline ≤ clock (st1.k + 1))) &&
+     decide (clock st1.k < clock (st1.k + 1)))
+
+/-- `Q` holds at the start of every iteration of the run that receives no datagram -/
+def alongRun (cfg : Cfg) (extra : Nat → Option Int) (clock : Nat → Int) (Q : St → Bool) :
+    St → List (List Dgram) → Bool
+  | _, [] => true
+  | st, b :: bs =>
+    if st.active then
+      (!b.isEmpty || Q st) &&
+        match iter cfg extra clock st b with
+        | (_, _, some _) => true
+        | (st', _, none) => alongRun cfg extra clock Q st' bs
+    else true
+
+/-- number of loop iterations the run performs on these batches -/
+def iterations (cfg : Cfg) (extra : Nat → Option Int) (clock : Nat → Int) : St → List (List Dgram) → Nat
+  | _, [] => 0
+  | st, b :: bs =>
+    if st.active then
+      match iter cfg extra clock st b with
+      | (_, _, some _) => 1
+      | (st', _, none) => 1 + iterations cfg extra clock st' bs
+    else 0
+
+/-! ### `SCPConnection.read` / `SCPConnection.write` as bursts (composition with C07)
+
+`read` hands `send_scp_burst` one command per chunk of `C07.read` (no extra timeout), each with a
+callback that stores the reply's payload into its slice of the receive buffer; `write` hands it one
+command per chunk of `C07.write` (default callback).  What a datagram carries (`payload`, by
+datagram id) and which requests the machine executed (`exec`) are not visible to the burst: they
+are ghost inputs, constrained only by the hypotheses of `read_through_burst` /
+`write_through_burst`. -/
+
+/-- the per-command extra timeouts of a read/write burst: `scpcall(..., timeout=0.0)` for every chunk -/
+def chunkTimeouts (chunks : List C07.Chunk) : List Int := chunks.map (fun _ => 0)
+
+/-- the callback of `SCPConnection.read` for chunk `c`: `mem[offset:offset + block_size] = payload`,
+a `memoryview` slice assignment - `ValueError` (`none`) unless the lengths agree -/
+def storeReply (base : Nat) (buffer : C07.Mem) (c : C07.Chunk) (payload : List Nat) : Option C07.Mem :=
+  if payload.length = c.size then some (C07.writeMem buffer (c.addr - base) payload) else none
+
+/-- run the callbacks of a burst's event list, in order, on the receive buffer -/
+def assembleRead (chunks : List C07.Chunk) (payload : Nat → List Nat) (base : Nat) :
+    List Ev → C07.Mem → Option C07.Mem
+  | [], buffer => some buffer
+  | .send _ _ _ _ :: evs, buffer => assembleRead chunks payload base evs buffer
+  | .callback c i :: evs, buffer =>
+    match chunks[c]? with
+    | none => none
+    | some ch =>
+      match storeReply base buffer ch (payload i) with
+      | none => none
+      | some buffer' => assembleRead chunks payload base evs buffer'
+
+inductive ReadRes where
+  | ok (bytes : List Nat)          -- `bytes(data)`
+  | valueError                     -- a callback's slice assignment failed
+  | burst (r : Res)                -- the burst raised (or the script was exhausted)
+  deriving Repr, DecidableEq
+
+/-- `SCPConnection.read(buffer_size, window_size, x, y, p, address, length_bytes)` in the environment
+`(clock, batches, payload)` -/
+def readThrough (cfg : Cfg) (clock : Nat → Int) (s0 : Nat) (batches : List (List Dgram))
+    (payload : Nat → List Nat) (buf addr len : Nat) : ReadRes :=
+  let chunks := C07.read buf addr len
+  let r := run cfg (fun i => (chunkTimeouts chunks)[i]?) clock (St.init s0) batches
+  match assembleRead chunks payload addr r.2.1 (fun _ => 0) with
+  | none => .valueError
+  | some buffer =>
+    match r.2.2 with
+    | .done => .ok (C07.readMem buffer 0 len)
+    | res => .burst res
+
+/-- the machine's memory after it executed the write requests `exec` (command indexes, in the order
+their request datagrams were executed) of a `SCPConnection.write` burst -/
+def memAfter (chunks : List C07.Chunk) (exec : List Nat) (m : C07.Mem) : C07.Mem :=
+  (exec.filterMap (fun j => chunks[j]?)).foldl C07.execWrite m
+
 /-! ### Specification of the property on the observable log (oracle run on the implementation)
 
 The log is what happens at the socket / callback boundary, in order. `origin` is ground truth
@@ -288,6 +393,52 @@ def handle (op : String) (j : Json) : R Json := do
     let (st, evs, r) := run cfg extra clock (St.init seq0) batches
     pure (Json.mkObj [("events", jList (evs.map evToJson)), ("result", resToJson r),
                       ("seq_ctr", jNat st.seqCtr), ("clock_reads", jNat st.k)])
+  | "progress" =>
+    -- the progress hypotheses of `terminates_under_progress` / `terminates_under_select`, evaluated on
+    -- a recorded environment, the number of iterations of the model and the proved bounds
+    let cfg : Cfg := { window := ← nat j "window", nTries := ← nat j "n_tries",
+                       modulus := ← nat j "modulus", defaultTimeout := ← int j "timeout" }
+    let extraL ← ints j "extra"
+    let extraA := extraL.toArray
+    let extra : Nat → Option Int := fun i => extraA[i]?
+    let clockL ← ints j "clock"
+    let clockA := clockL.toArray
+    let clock := clockOfArray clockA (clockL.getLastD 0)
+    let batches ← (← arr j "batches").mapM (fun b => do (← asArr b).mapM dgramOfJson)
+    let seq0 ← nat j "seq0"
+    let mono := (List.range (clockA.size - 1)).all (fun k => decide (clock k ≤ clock (k + 1)))
+    let d := batches.flatten.length
+    let base := extraL.length * cfg.nTries + d + 1
+    pure (Json.mkObj [
+      ("mono", Json.bool mono),
+      ("strict", Json.bool (alongRun cfg extra clock (timedOut cfg extra clock) (St.init seq0) batches)),
+      ("weak", Json.bool (alongRun cfg extra clock (timedOutWeak cfg extra clock) (St.init seq0) batches)),
+      ("iterations", jNat (iterations cfg extra clock (St.init seq0) batches)),
+      ("bound_strict", jNat base), ("bound_weak", jNat (2 * base))])
+  | "read_through" =>
+    -- `SCPConnection.read` in a recorded environment; `payloads` = [[datagram id, bytes], ...]
+    let cfg : Cfg := { window := ← nat j "window", nTries := ← nat j "n_tries",
+                       modulus := ← nat j "modulus", defaultTimeout := ← int j "timeout" }
+    let clockL ← ints j "clock"
+    let clock := clockOfArray clockL.toArray (clockL.getLastD 0)
+    let batches ← (← arr j "batches").mapM (fun b => do (← asArr b).mapM dgramOfJson)
+    let pl ← (← arr j "payloads").mapM (fun e => do
+      match ← asArr e with
+      | [i, bs] => pure ((← asNat i), (← (← asArr bs).mapM asNat))
+      | _ => .error "bad payload")
+    let pm : Std.HashMap Nat (List Nat) := Std.HashMap.ofList pl
+    match readThrough cfg clock (← nat j "seq0") batches (fun i => pm.getD i []) (← nat j "buf") (← nat j "addr")
+        (← nat j "len") with
+    | .ok bytes => pure (jOk (jNats bytes))
+    | .valueError => pure (jErr "ValueError")
+    | .burst r => pure (Json.mkObj [("burst", resToJson r)])
+  | "write_through" =>
+    -- memory window [lo, lo + |init|) after the machine executed the write requests `exec`
+    let lo ← nat j "lo"
+    let init := (← nats j "init").toArray
+    let m : C07.Mem := fun a => if lo ≤ a then init.getD (a - lo) 0 else 0
+    let chunks := C07.write (← nat j "buf") (← nat j "addr") (← nats j "data")
+    pure (jNats (C07.readMem (memAfter chunks (← nats j "exec") m) lo init.size))
   | "check_log" =>
     let sp : Spec := { window := ← nat j "window", nTries := ← nat j "n_tries", nCmds := ← nat j "n_cmds",
                        timeouts := ← ints j "timeouts" }
